@@ -63,6 +63,32 @@ class Ctx:
             self._cfg[fi.qual] = g
         return g
 
+    def tests(self, fi: FuncInfo, pattern, binds=None) -> List[Tuple[int, str]]:
+        """(test node, out-edge label on which `pattern` holds) for every atomic condition of fi matching the
+        pattern; locals are expanded, polarity and and/or/not structure are normalised by the CFG."""
+        from mdsa.match import find_tests
+
+        return find_tests(self.cfg(fi), fi.node, pattern, binds)
+
+    def tests_any(self, fi: FuncInfo, *patterns) -> List[Tuple[int, str]]:
+        out: List[Tuple[int, str]] = []
+        for p in patterns:
+            for x in self.tests(fi, p):
+                if x not in out:
+                    out.append(x)
+        return out
+
+    def branch(self, fi: FuncInfo, edges: List[Tuple[int, str]]) -> List[int]:
+        """First nodes of the branches entered through the given (test, label) out-edges."""
+        g = self.cfg(fi)
+        return [b for t, lab in edges for b, l in g.succ[t] if l == lab]
+
+    def raises_on(self, fi: FuncInfo, edges: List[Tuple[int, str]]) -> bool:
+        """Taking any one of the given out-edges never reaches the normal exit (refusal branch)."""
+        g = self.cfg(fi)
+        starts = self.branch(fi, edges)
+        return bool(edges) and g.exit not in g.reach(starts) and g.exit not in starts
+
     @property
     def cg(self) -> CallGraph:
         if self._cg is None:
